@@ -274,3 +274,16 @@ class Rng(random.Random):
         from fractions import Fraction
 
         return Fraction(self.randint(lo, hi), self.choice(dens))
+
+
+def load_corpus(prop, stream):
+    """Committed corpus cases (minimised past disagreements and pinned probes) run first."""
+    d = os.path.join(VERIF, "corpus", prop)
+    out = []
+    if os.path.isdir(d):
+        for f in sorted(os.listdir(d)):
+            if f.endswith(".json"):
+                c = json.load(open(os.path.join(d, f)))
+                if c.get("stream") == stream:
+                    out.append(c["case"])
+    return out
